@@ -501,6 +501,8 @@ contract(C + 'Writer.addVarSeq',
              # the byte-count is a multiple of the element size and divides back to the element count
              S.implies(ns.length >= 1, S.And(n % ns.length == 0, div(n, ns.length) == S.len_(ns.seq))),
              region_decodes(new, b0 + ns.lengthLength, ns.seq, ns.length),
+             # one-byte elements (opaque vectors written with addVarSeq(data, 1, ll)): the bytes themselves
+             S.implies(ns.length == 1, S.forall(lambda k: at(new, b0 + ns.lengthLength + k) == at(ns.seq, k), 0, S.len_(ns.seq))),
              prefix_kept(ns)))(wbytes(ns), S.len_(wbytes(ns.old)), S.len_(ns.seq) * ns.length),
          lemmas=[(multiple_lemma, lambda ns: (S.len_(ns.seq), ns.length))],
          raises={ValueError: ('iff', lambda ns: S.Not(varseq_fits(ns)))},
